@@ -116,13 +116,13 @@ def main(tier, seed, replay=None):
         os.makedirs(d)
         man = ("rule w\n  command = echo x > $out\nrule clean\n  command = rm -rf stage; echo done > $out\n"
                "rule rsp\n  command = cat $out.rsp > $out\n  rspfile = $out.rsp\n  rspfile_content = $content\n"
-               "build stage/a: w\nbuild cleaned: clean stage/a\nbuild stage/sub/c: w cleaned\n"
+               "build stage/a: w\nbuild cleaned: clean stage/a\nbuild stage/c: w cleaned\n"
                "build r.out: rsp\n  content = %s\n")
         open(os.path.join(d, "build.ninja"), "w").write(man % "alpha.o beta.o gamma_long_name.o")
         rc, so, se = run_n2(n2, d, ["-j", "1"])
         where = {"project": "dir removed by an earlier command of the same invocation; response file that shrinks", "stdout": so.decode("utf-8", "replace")[-400:], "rc": rc}
         stats["commands"] += 4
-        if rc != 0 or not os.path.exists(os.path.join(d, "stage/sub/c")):
+        if rc != 0 or not os.path.exists(os.path.join(d, "stage/c")):
             run.report_failure(None, "the output directory of a step did not exist when its command started (an earlier command had removed it)", where)
         open(os.path.join(d, "build.ninja"), "w").write(man % "alpha.o")
         rc, so, se = run_n2(n2, d, ["-j", "1", "r.out"])
